@@ -16,7 +16,13 @@ def _mod(f, name):
             ["-Dmodule_constructor=%s_ctor" % name, "-Dmodule_destructor=%s_dtor" % name])
 
 
-def build_harness(wd, prop):
+def build_plain_harness(wd, prop):
+    """the same harness without sanitizers (used only to see what the shipped program goes on to
+    do on an input where the sanitized one was stopped)"""
+    return build_harness(wd, prop, sanitize=False)
+
+
+def build_harness(wd, prop, sanitize=True):
     r = core.repo()
     srcs = [os.path.join(core.HARNESS_DIR, "h_proto.c"), _mod("iauth_core.c", "iauth"),
             # `ntohs(x) << 16` / `part << (24 - 8*dots)` shift into or past the sign bit of int:
@@ -26,7 +32,8 @@ def build_harness(wd, prop):
             _mod("iauth_class.c", "iauth_class")]
     for f in ["config.c", "log.c", "set.c", "common.c", "bitset.c", "accumulators.c", "git-version.c"]:
         srcs.append(os.path.join(r, "src", f))
-    path, log = core.compile_c(wd, "h_proto", srcs, libs=["-levent", "-lm", "-Wl,--wrap=event_new,--wrap=event_free"])
+    path, log = core.compile_c(wd, "h_proto" if sanitize else "h_proto_plain", srcs, sanitize=sanitize,
+                               libs=["-levent", "-lm", "-Wl,--wrap=event_new,--wrap=event_free"])
     if path:
         os.makedirs(os.path.join(wd, "run"), exist_ok=True)
     return path, log
@@ -677,8 +684,8 @@ def class_scenario(rng, name):
                                       ("address", ADDR_PATS), ("xreply_ok", ["login.srv", "drone.srv", "Login.Srv", "nosuch"])],
                                      rng.choice([0, 1, 1, 1, 2])):
             kv.append((crit, rng.choice(pool)))
-        if rng.random() < 0.25:
-            kv.append(("trust_username", rng.choice(["yes", "no", "1"])))
+        if rng.random() < 0.4:
+            kv.append(("trust_username", rng.choice(["yes", "yes", "no", "1"])))
         rules.append((n, kv))
     cfg = Cfg(timeout=0, services=services, rules=rules)
     scripts = {}
@@ -797,7 +804,12 @@ def gen_cases(prop, tier, seed):
         for i in range(n):
             mods = rng.choice(["xquery", "class", "core"])
             cfg = rand_cfg(rng, mods)
-            ids = rng.sample([1, 2, 5, 7, 300, 65535], rng.choice([2, 3, 4]))
+            if i % 4 == 3:
+                # ids further apart than INT_MAX: the request table's comparator must stay a total
+                # order over the whole 32-bit range (seeded change C07-2 needs three such clients)
+                ids = rng.sample([-2147483648, -2147483000, -5, 0, 7, 2147483000, 2147483647], rng.choice([3, 3, 4]))
+            else:
+                ids = rng.sample([1, 2, 5, 7, 300, 65535], rng.choice([2, 3, 4]))
             scripts = {cid: client_script(rng, cid, cfg, mods) for cid in ids}
             # C07 quantifies over clients on distinct ids whose own order is preserved
             for k in range(2 if quick else 4):
@@ -865,7 +877,12 @@ def gen_cases(prop, tier, seed):
                 rules = [(n, list(kv)) for n, kv in base.rules] or [("a", [("class", "cls-a")])]
                 k = rng.randrange(len(rules))
                 crit, v1, v2 = rng.choice([("hostname", "nomatch", "*"), ("hostname", "*", "nomatch"), ("username", "nomatch", "*"),
-                                           ("address", "9.9.9.9", "*"), ("class", "one", "two"), ("account", "nomatch", "*")])
+                                           ("address", "9.9.9.9", "*"), ("class", "one", "two"), ("account", "nomatch", "*"),
+                                           # edits that change nothing but letter case: patterns and class
+                                           # names are case-sensitive (seeded change C17-2)
+                                           ("hostname", "HOST.EXAMPLE", "host.example"), ("hostname", "host.example", "HOST.example"),
+                                           ("class", "Lan", "lan"), ("class", "lan", "LAN"),
+                                           ("username", "IDENT", "ident"), ("account", "ACCT", "acct")])
                 n, kv = rules[k]
                 kv0 = [x for x in kv if x[0] != crit]
                 r0, r1, r2 = list(rules), list(rules), list(rules)
@@ -894,6 +911,10 @@ def gen_cases(prop, tier, seed):
             cases.append(noisy_scenario(rng, "noisy/%d" % i))
         elif prop in ("C02", "C03", "C05", "C01", "C10") and i % 5 == 2:
             cases.append(challenge_scenario(rng, "chl/%d" % i))
+        elif prop in ("C01", "C02", "C03", "C05", "C09", "C10") and i % 10 == 3:
+            # rule tables with trust_username against '~' idents: the class module calls back into
+            # the core from inside iauth_accept (seeded change C01-2)
+            cases.append(class_scenario(rng, "cls/%d" % i))
         else:
             cases.append(scenario(rng, "scn/%d" % i))
     return cases
